@@ -567,6 +567,12 @@ class Interp:
 
     def e_IfExp(self, node, env):
         c = self.eval(node.test, env)
+        if self.ctx.in_quant and is_symbool(c):
+            # inside an element-wise closure: no path split on the element, both arms become one conditional term
+            a, b = self.eval(node.body, env), self.eval(node.orelse, env)
+            if all(isinstance(x, (bool, int)) or is_numlike(x) or is_symbool(x) or x is NAN for x in (a, b)):
+                return If(c, a, b)
+            raise Undecided("conditional expression with non-scalar arms inside an element-wise closure")
         if self.truth(c, f"ifexp@{node.lineno}"):
             return self.eval(node.body, env)
         return self.eval(node.orelse, env)
